@@ -507,6 +507,7 @@ write_pidfile (const char *pidfile, int got_force)
     char    piddir [PATH_MAX];
     char    ebuf [1024];
     int     rv;
+    int     is_old = 0;
     mode_t  mask;
     FILE   *fp;
 
@@ -548,9 +549,20 @@ write_pidfile (const char *pidfile, int got_force)
     if ((rv < 0) && (errno != ENOENT)) {
         log_msg (LOG_WARNING, "Failed to remove PIDfile \"%s\": %s",
                 pidfile, strerror (errno));
+        is_old = 1;
     }
     fp = fopen (pidfile, "w");
     umask (mask);
+    /*
+     *  An old pidfile that could not be removed has been reused by the
+     *    fopen() above along with whatever permissions it had.
+     */
+    if (fp && is_old && (fchmod (fileno (fp),
+            (S_IRUSR | S_IWUSR | S_IRGRP | S_IROTH) & ~mask) < 0)) {
+        log_msg (LOG_WARNING,
+                "Failed to set permissions of PIDfile \"%s\": %s",
+                pidfile, strerror (errno));
+    }
     /*
      *  An error in creating the pidfile is not considered fatal.
      */
